@@ -12,6 +12,7 @@
    builds each app as a REAL humphrey App on a loopback port, sends every request over raw TCP under several
    renderings (method, version, other headers, header-name case, keep-alive / fresh connection, OPTIONS) and
    compares the identity of the handler that answered.
+   Both directions run against the threaded runtime (humphrey/src/app.rs) and the tokio twin (tokio/app.rs).
 3. code -> spec: random real apps at the property's full width (0..4 hosts x 0..6 routes of each kind) with
    random registration interleavings; the log of registration calls + observed handlers is replayed by TLC
    (Trace_Routing.tla) with Routing's own registration operators and dispatcher actions.
@@ -75,21 +76,21 @@ def run(tier, replay):
     if a is None or a != b:
         raise vlib.ToolError("spec/routing/GlobMatch.tla: Match is no longer the definition of spec/glob/Glob.tla")
 
-    bindir = build_harness(["routing"])
-    routing = os.path.join(bindir, "routing")
+    routing = os.path.join(build_harness(["routing"]), "routing")
+    routing_tokio = os.path.join(build_harness(["routing"], tokio=True), "routing")
     work = vlib.workdir("C04")
 
     if replay:
         # the stored counterexample is re-run first; the normal run follows so that the evidence stays complete
-        _replay_case(ctx, routing, replay, work)
+        _replay_case(ctx, {"threaded": routing, "tokio": routing_tokio}, replay, work)
 
     # ---- 1. model checking -------------------------------------------------------------------
     r = run_tlc("MC_Routing.tla", "MC_Routing_quick.cfg", D, workers=8, coverage=True, timeout=900, work_id="c04")
-    ctx.add_tlc("dispatcher model, Dev={}: AlgoCorrect, Bounded, Independence (2 hosts x 2 routes, 2+2 patterns)", r)
+    ctx.add_tlc("dispatcher model, Dev={}: AlgoCorrect, Bounded (2 hosts x 2 routes + 1 default, 2+2 patterns)", r)
     ctx.require_tlc_ok("MC_Routing_quick", r)
     ctx.require_cover("MC_Routing_quick", r, ACTIONS)
     r = run_tlc("MC_Routing.tla", "MC_Routing_live.cfg", D, workers=4, timeout=900, work_id="c04")
-    ctx.add_tlc("dispatcher model, Dev={}: termination (liveness), all query forms, two 'other' request parts", r)
+    ctx.add_tlc("dispatcher model, Dev={}: termination (liveness), Independence facts, all query forms, two 'other' request parts", r)
     ctx.require_tlc_ok("MC_Routing_live", r)
     if thorough:
         r = run_tlc("MC_Routing.tla", "MC_Routing_thorough.cfg", D, workers=8, coverage=True, timeout=2400, work_id="c04", heap="8g")
@@ -109,18 +110,47 @@ def run(tier, replay):
     cfgs = ["MC_Routing_dev_%s.cfg" % d for d in DEVS] + ["MC_Routing_wit_%s.cfg" % w for w in wits]
     with concurrent.futures.ThreadPoolExecutor(max_workers=5) as ex:
         results = dict(ex.map(small, cfgs))
+    dev_cases = []
     for d in DEVS:
         r = results["MC_Routing_dev_%s.cfg" % d]
         ctx.add_tlc("sensitivity: Dev={%s} must violate AlgoCorrect" % d, r)
         if r.violation != "invariant" or r.violated_name != "AlgoCorrect":
             raise vlib.ToolError("model lost sensitivity: Dev={%s} no longer violates AlgoCorrect" % d)
+        dc = [x["dev_case"] for x in r.prints if "dev_case" in x]
+        if not dc:
+            raise vlib.ToolError("Dev={%s}: TLC did not print the refuting case" % d)
+        dev_cases.append((d, dc[-1]))
+    # the refuting case of every deviation, on the REAL apps (both runtimes): the code must answer as Expected
+    # (0 mismatches) and must NOT answer as the deviating model (every case reported)
+    for label, binpath in (("threaded", routing), ("tokio", routing_tokio)):
+        for which, want_all in (("exp", False), ("model", True)):
+            rep = []
+            for d, c in dev_cases:
+                data = json.dumps({"reqs": [c["req"]]}) + "\n" + json.dumps({"app": c["app"], "exp": [c[which] + [0, 0, 0, 0]]}) + "\n"
+                p = run_bin(binpath, ["replay", "--variants", "one", "--workers", "1"], stdin_data=data, timeout=300)
+                sm = [x for x in parse_jsonl(p.stdout) if x.get("summary")]
+                if p.returncode != 0 or not sm or sm[0]["apps"] != 1:
+                    raise vlib.ToolError("routing replay of the %s case failed: %s" % (d, p.stderr[-500:]))
+                rep.append((d, c, sm[0]))
+            for d, c, sm in rep:
+                ctx.cov["evaluations"] += sm["evaluations"]
+                if not want_all and sm["mismatches"]:
+                    ctx.violation("%s runtime does not answer the case refuting Dev={%s} as Route/WsRoute says: %s" % (
+                        label, d, json.dumps(sm["first"][0])[:500]),
+                        {"kind": "routing-vectors", "runtime": label, "reqs": [c["req"]], "first": sm["first"]})
+                if want_all and not sm["mismatches"]:
+                    # the real code behaves like the deviation: AlgoCorrect's counterexample is a real defect
+                    ctx.violation("%s runtime behaves as deviation %s predicts: %s" % (label, d, json.dumps(c)[:500]),
+                                  {"kind": "routing-deviation", "runtime": label, "dev": d, "case": c})
+    ctx.add_part("deviation cases on the real apps", deviations=len(dev_cases),
+                 sample={"dev": dev_cases[0][0], "case": dev_cases[0][1]})
     for w in wits:
         r = results["MC_Routing_wit_%s.cfg" % w]
         ctx.add_tlc("witness: %s must be violated (the case exists in the explored space)" % w, r)
         if r.violation != "invariant":
             raise vlib.ToolError("vacuity guard: no state of the explored space violates %s" % w)
 
-    # ---- 2. vectors from TLC replayed on real apps ---------------------------------------------
+    # ---- 2. vectors from TLC replayed on real apps (threaded runtime and tokio twin) ------------
     cfg = "Gen_Routing_thorough.cfg" if thorough else "Gen_Routing_quick.cfg"
     g = run_tlc("MC_Routing.tla", cfg, D, workers=6, timeout=1500, work_id="c04", heap="6g")
     if g.violation:
@@ -147,49 +177,60 @@ def run(tier, replay):
                 nontrivial += 1
     if min(cls) == 0 or shadow == 0 or qm == 0 or skip == 0:
         raise vlib.ToolError("vacuity guard: generated vectors miss a class: %s shadow=%d query=%d skip=%d" % (cls, shadow, qm, skip))
-    s = _replay_batches(ctx, routing, header, apps, "all" if thorough else "one", 6)
-    ctx.cov["evaluations"] += s["evaluations"]
     ctx.cov["distinct_nontrivial"] += nontrivial
-    ctx.cov["traces_validated_against_impl"] += s["requests"]
-    for x in s["samples"][:4]:
-        ctx.sample(x)
-    ctx.add_part("vectors " + cfg, apps=s["apps"], requests_per_app=nreq, vectors=s["requests"], real_requests=s["evaluations"],
-                 mismatches=s["mismatches"], tool_errors=s["tool_errors"], unstopped_apps=s["unstopped"],
-                 transport_retries=s["transport_retries"],
-                 classes={"miss_no_host": cls[0], "miss_after_host_match": cls[1], "default_no_host": cls[2],
-                          "default_after_fall_through": cls[3], "host_subapp": cls[4], "shadowed_by_order": shadow,
-                          "query_would_change_choice": qm, "later_host_also_matches": skip})
-    if s["tool_errors"] > max(3, len(apps) // 50):
-        raise vlib.ToolError("too many apps could not be started / queried: %d" % s["tool_errors"])
-    if s["mismatches"]:
-        f = s["first"]
-        ctx.violation("%d request(s) answered by another handler than Route/WsRoute names; first: %s" % (
-            s["mismatches"], json.dumps({k: f[0][k] for k in ("request", "variant", "expected", "got")})),
-            {"kind": "routing-vectors", "cfg": cfg, "reqs": header["reqs"], "first": f[:10]})
+    classes = {"miss_no_host": cls[0], "miss_after_host_match": cls[1], "default_no_host": cls[2],
+               "default_after_fall_through": cls[3], "host_subapp": cls[4], "shadowed_by_order": shadow,
+               "query_would_change_choice": qm, "later_host_also_matches": skip}
+    for label, binpath in (("threaded", routing), ("tokio", routing_tokio)):
+        s = _replay_batches(ctx, binpath, header, apps, "all" if thorough else "one", 6)
+        ctx.cov["evaluations"] += s["evaluations"]
+        ctx.cov["traces_validated_against_impl"] += s["requests"]
+        for x in s["samples"][:2]:
+            ctx.sample(dict(x, runtime=label))
+        ctx.add_part("vectors %s, %s runtime" % (cfg, label), apps=s["apps"], requests_per_app=nreq, vectors=s["requests"],
+                     real_requests=s["evaluations"], mismatches=s["mismatches"], tool_errors=s["tool_errors"],
+                     unstopped_apps=s["unstopped"], transport_retries=s["transport_retries"], classes=classes)
+        if s["tool_errors"] > max(3, len(apps) // 50):
+            raise vlib.ToolError("too many apps could not be started / queried (%s): %d" % (label, s["tool_errors"]))
+        if s["mismatches"]:
+            f = s["first"]
+            ctx.violation("%s runtime: %d request(s) answered by another handler than Route/WsRoute names; first: %s" % (
+                label, s["mismatches"], json.dumps({k: f[0][k] for k in ("request", "variant", "expected", "got")})),
+                {"kind": "routing-vectors", "runtime": label, "cfg": cfg, "reqs": header["reqs"], "first": f[:10]})
 
     # ---- 3. random real apps, log validated by TLC ----------------------------------------------
-    napps, nreq_r = (1200, 40) if thorough else (150, 40)
-    p = run_bin(routing, ["random", str(napps), str(nreq_r), "--workers", "6"], timeout=1500)
-    if p.returncode != 0:
-        raise vlib.ToolError("routing random failed: " + p.stderr[-1000:])
-    summ = [x for x in parse_jsonl(p.stderr) if x.get("summary")]
-    if not summ or summ[0]["tool_errors"] > napps // 20 + 3:
-        raise vlib.ToolError("routing random: %s" % (summ or p.stderr[-500:]))
+    nreq_r = 40
+    plan = (("threaded", routing, 1000 if thorough else 110), ("tokio", routing_tokio, 500 if thorough else 50))
+    lines = []
+    bounds = []
+    for label, binpath, napps in plan:
+        p = run_bin(binpath, ["random", str(napps), str(nreq_r), "--workers", "6"], timeout=1500,
+                    env={"VERIF_SEED": vlib.seed() + (0 if label == "threaded" else 7919)})
+        if p.returncode != 0:
+            raise vlib.ToolError("routing random (%s) failed: %s" % (label, p.stderr[-1000:]))
+        summ = [x for x in parse_jsonl(p.stderr) if x.get("summary")]
+        if not summ or summ[0]["tool_errors"] > napps // 20 + 3:
+            raise vlib.ToolError("routing random (%s): %s" % (label, summ or p.stderr[-500:]))
+        lines += p.stdout.splitlines()
+        bounds.append((len(lines), label))
+    napps = sum(x[2] for x in plan)
     tr = os.path.join(work, "random.ndjson")
     with open(tr, "w") as f:
-        f.write(p.stdout)
-    lines = p.stdout.splitlines()
+        f.write("\n".join(lines) + "\n")
     nrec = sum(1 for x in lines if '"t":"req"' in x)
     t = _trace(ctx, tr, "random", nrec)
-    ctx.add_tlc("trace validation: %d random apps (0..4 hosts x 0..6 routes per kind), %d requests" % (napps, nrec), t)
+    ctx.add_tlc("trace validation: %d random apps (0..4 hosts x 0..6 routes per kind; %s), %d requests" % (
+        napps, ", ".join("%d %s" % (x[2], x[0]) for x in plan), nrec), t)
     ctx.cov["evaluations"] += nrec
     ctx.cov["traces_validated_against_impl"] += nrec
     stats = [x["classes"] for x in t.prints if "classes" in x]
     if t.violation:
         rej = [x for x in t.prints if "rejected" in x]
         rej = rej[-1]["rejected"] if rej else []
-        if not rej and t.violation != "postcondition":
+        if not rej or t.violation != "postcondition":
             raise vlib.ToolError("Trace_Routing failed without a rejected record: %s %s\n%s" % (t.violation, t.violated_name, t.out[-1500:]))
+        for x in rej:
+            x["runtime"] = next(lbl for (hi_, lbl) in bounds if x["line"] <= hi_)
         apps_of = _apps_for(lines, [x["line"] for x in rej])
         ctx.violation("real app chose another handler than the model for %d logged request(s); first: %s" % (
             len(rej), json.dumps(rej[:1])[:600]), {"kind": "routing-trace", "rejected": rej, "apps": apps_of})
@@ -261,11 +302,12 @@ def _apps_for(lines, idxs):
     return out
 
 
-def _replay_case(ctx, routing, path, work):
+def _replay_case(ctx, bins, path, work):
     """--replay <file>: re-run a stored counterexample (vectors: through the harness; trace: re-record is not
     possible, so the stored records are re-validated by TLC)."""
     case = json.load(open(path)).get("case", {})
     if case.get("kind") == "routing-vectors":
+        routing = bins.get(case.get("runtime", "threaded"), bins["threaded"])
         for f in case["first"]:
             # only the stored request carries a meaningful expectation: replay it alone
             one = {"reqs": [case["reqs"][f["request_index"] - 1]]}
